@@ -61,6 +61,38 @@ func stateEqEdge(p *core.Program, constName string) core.EdgeFilter {
 	}
 }
 
+// withinOp: fn is the operation root itself or an unexported helper of the same package all of whose call
+// sites (plain calls, no go/defer) lie within the operation - code that only ever runs as part of root.
+func withinOp(p *core.Program, fn, root *ssa.Function, depth int) bool {
+	ensureCallSites(p)
+	fn = core.Outermost(fn)
+	if fn == root {
+		return true
+	}
+	if depth == 0 || fn.Object() == nil || fn.Object().Exported() || fn.Pkg != root.Pkg {
+		return false
+	}
+	sites := gCallSites[fn]
+	if len(sites) == 0 {
+		return false
+	}
+	for _, s := range sites {
+		if _, isCall := s.(*ssa.Call); !isCall {
+			return false
+		}
+		if !withinOp(p, s.Parent(), root, depth-1) {
+			return false
+		}
+	}
+	return true
+}
+
+// dominatedInOp: some instruction satisfying pred is executed before site on every path from the entry of the
+// operation root (site may live in a helper of the operation).
+func dominatedInOp(p *core.Program, site ssa.Instruction, pred func(ssa.Instruction) bool) bool {
+	return precededBy(p, site.Parent(), site, pred, 3)
+}
+
 func checkHubTrust(p *core.Program, r *core.Report, R4 string) {
 	reg := p.Method("hub", "Hub", "RegisterRemoteSKI")
 	upd := p.Method("hub", "Hub", "HandleShipHandshakeStateUpdate")
@@ -85,7 +117,7 @@ func checkHubTrust(p *core.Program, r *core.Report, R4 string) {
 		n++
 		key := "SetTrusted(true) in " + p.FnName(s.Fn)
 		switch {
-		case s.Fn == reg:
+		case withinOp(p, s.Fn, reg, 3):
 			r.OK(R4, key, p.Pos(s.In.Pos()), "user registration")
 		case core.Guarded(s.In, helloOk) && s.Fn == upd:
 			r.OK(R4, key, p.Pos(s.In.Pos()), "guarded by state == SmeHelloStateOk in the state-update callback")
@@ -149,16 +181,13 @@ func checkHubTrust(p *core.Program, r *core.Report, R4 string) {
 	for _, s := range core.Sites(fns, func(in ssa.Instruction) bool { return core.IsInvokeOf(in, mApprove) }) {
 		na++
 		key := "ApprovePendingHandshake call in " + p.FnName(s.Fn)
-		if s.Fn != reg {
+		if !withinOp(p, s.Fn, reg, 3) {
 			r.Fail(R4, key, p.Pos(s.In.Pos()), "a pending handshake is approved outside RegisterRemoteSKI (no user trust decision)")
 			continue
 		}
-		dom := false
-		core.EachInstr(reg, func(in ssa.Instruction) {
+		dom := dominatedInOp(p, s.In, func(in ssa.Instruction) bool {
 			c := core.Common(in)
-			if c != nil && core.CallsMethodNamed(in, apiPath, "ServiceDetails", "SetTrusted") && len(c.Args) == 2 && isBoolConst(c.Args[1], true) && core.Dominates(in, s.In) {
-				dom = true
-			}
+			return c != nil && core.CallsMethodNamed(in, apiPath, "ServiceDetails", "SetTrusted") && len(c.Args) == 2 && isBoolConst(c.Args[1], true)
 		})
 		if dom {
 			r.OK(R4, key, p.Pos(s.In.Pos()), "in RegisterRemoteSKI after SetTrusted(true)")
